@@ -383,3 +383,11 @@ def r_segflag(ctx):
     n = check_segmentation_flag(ctx, [ctx.body(n) for n in ['corrupt::edit_word']], 'spelling corruption')
     if n == 0:
         raise AnchorMissing('CharString::new sites of the spelling corruption code')
+
+
+@rule('C15', 'R-C15-9', 'prerequisite (the segmentation primitive)',
+      'CharString::new segments by graphemes(true) / chars() selected by the flag alone and keeps byte lengths at full width '
+      '(R-C11-6 re-evaluated): every index, length and range of this property is counted in its characters')
+def r_charstring(ctx):
+    from rules import c11
+    c11.charstring_primitive(ctx)
